@@ -1,4 +1,4 @@
-import DuneVerif.Proofs.C13Match
+import DuneVerif.Proofs.C13Add
 /-!
 C13 — IndicesSyncer completes index sets and remote index lists to mutual consistency.
 
@@ -197,6 +197,191 @@ theorem restore_after_delete (num : Int → Nat) (D : Decomp) (hD : DecompWF D) 
   rw [h2]
   simp [consistentRank, numberFrom_map_key]
 
+/-! ### round two: announcements, histories, repeated restoration, numberer objects with state -/
+
+/-- The invariant survives growing the ground truth: a partial view of `D` is a partial view of every decomposition
+that knows everything `D` knows (used when a process announces copies that were not part of the rebuilt state). -/
+theorem partialView_of_grown (D D' : Decomp) (w : World) (hw : PartialView D w) (hD : DecompLe D D') :
+    PartialView D' w :=
+  partialView_mono hw hD
+
+/-- Newly discovered neighbours come from states in which a process `p` has added an index `g` it did not hold and
+announces it to neighbours (`known`: neighbour ↦ attribute there).  If the announcement agrees with the decomposition,
+the state is again a partial view with a symmetric neighbour relation, so every theorem of this file applies to it. -/
+theorem partialView_of_added (D : Decomp) (w : World) (hw : PartialView D w) (p : Nat) (g : Int) (a loc : Nat)
+    (known : List (Nat × Nat)) (hq : D.attrOf p g = some a) (hnew : ∀ st, w[p]? = some st → ∀ e ∈ st.idx, e.g ≠ g)
+    (hk : ∀ x b, known.lookup x = some b → D.attrOf x g = some b) :
+    PartialView D (addCopyAt w p g a loc known) :=
+  partialView_addCopyAt hw p g a loc known hq hnew hk
+
+theorem nbSym_of_added (w : World) (hs : NbSym w) (p : Nat) (g : Int) (a loc : Nat) (known : List (Nat × Nat)) :
+    NbSym (addCopyAt w p g a loc known) :=
+  nbSym_addCopyAt hs p g a loc known
+
+/-- All histories: after any sequence of syncs (each rank processing its inbox in any order), deletions of arbitrary
+copies and announcements of new copies, the state is a partial view of the decomposition with a symmetric neighbour
+relation — the hypotheses of `sync_postcondition`, `sync_monotone`, `sync_exact`, `sync_sorted`, `sync_refs_valid`,
+`order_irrelevant` and `sync_message_matching` hold again before every further sync. -/
+theorem history_invariant (D : Decomp) : ∀ (steps : List Step) (w : World), PartialView D w → NbSym w →
+    stepsOk D steps w → PartialView D (runSteps steps w) ∧ NbSym (runSteps steps w)
+  | [], _, hw, hs, _ => ⟨hw, hs⟩
+  | s :: ss, w, hw, hs, hok => by
+    have h1 : PartialView D (s.run w) ∧ NbSym (s.run w) := by
+      cases s with
+      | sync num => exact ⟨partialView_sync num hw, nbSym_sync num hw hs⟩
+      | syncOrd ord num =>
+        have e : syncOrd ord num w = sync num w := order_irrelevant num D w hw ord hok.1
+        simp only [Step.run]
+        rw [e]
+        exact ⟨partialView_sync num hw, nbSym_sync num hw hs⟩
+      | delete del => exact ⟨partialView_delete hw del, nbSym_delete hs del⟩
+      | add p g a loc known =>
+        exact ⟨partialView_addCopyAt hw p g a loc known hok.1.1 hok.1.2.1 hok.1.2.2, nbSym_addCopyAt hs p g a loc known⟩
+    exact history_invariant D ss _ h1.1 h1.2 hok.2
+
+/-- The last sentence of the property for every round, with the local numbers.  Let `w` be any state with the shape
+of the consistent state of `D` (same (global, attribute) pairs, same remote index lists; local numbers and sequence
+numbers arbitrary — e.g. the result of an earlier delete-and-sync round).  Delete any copies; if every deleted copy is
+still listed by another process, the sync gives a state of that shape again, and the index set of every rank is the
+one before the deletion with exactly the deleted pairs renumbered by `num` (kept pairs keep their local number). -/
+theorem restore_after_delete_any (num : Int → Nat) (D : Decomp) (hD : DecompWF D) (w : World)
+    (hw : Shape w (consistent D)) (del : Nat → Int → Bool)
+    (hlisted : ∀ p g, del p g = true → (D.attrOf p g).isSome = true →
+      ∃ (r : Nat) (sr : RankState) (en : RemEntry),
+        (deleteCopies del w)[r]? = some sr ∧ en ∈ listOf sr.remote p ∧ en.g = g) :
+    Shape (sync num (deleteCopies del w)) (consistent D) ∧
+    ∀ (q : Nat) (sq s' : RankState), w[q]? = some sq → (sync num (deleteCopies del w))[q]? = some s' →
+      s'.idx = sq.idx.map (fun e => if del q e.g then { e with loc := num e.g } else e) := by
+  have h1 : Shape (deleteCopies del w) (deleteCopies del (consistent D)) := deleteCopies_shape del hw
+  have h2 : Shape (sync num (deleteCopies del w)) (sync num (deleteCopies del (consistent D))) := sync_shape num num h1
+  have hl' : ∀ p g, del p g = true → (D.attrOf p g).isSome = true →
+      ∃ (r : Nat) (sr : RankState) (en : RemEntry),
+        (deleteCopies del (consistent D))[r]? = some sr ∧ en ∈ listOf sr.remote p ∧ en.g = g := by
+    intro p g hd hh
+    obtain ⟨r, sr, en, hsr, hen, hg⟩ := hlisted p g hd hh
+    have hr : r < (deleteCopies del (consistent D)).length := h1.1 ▸ (List.getElem?_eq_some_iff.1 hsr).1
+    have hb : (deleteCopies del (consistent D))[r]? = some (deleteCopies del (consistent D))[r] :=
+      List.getElem?_eq_getElem hr
+    refine ⟨r, _, en, hb, ?_, hg⟩
+    rw [← (h1.2 r sr _ hsr hb).2]
+    exact hen
+  have h3 : Shape (sync num (deleteCopies del (consistent D))) (consistent D) := by
+    refine ⟨by simp [sync, deleteCopies], fun q a b ha hb => ?_⟩
+    obtain ⟨s', hs', hk, hr⟩ := restore_after_delete num D hD del hl' q b hb
+    rw [ha] at hs'
+    simp only [Option.some.injEq] at hs'
+    subst hs'
+    exact ⟨hk, hr⟩
+  have hsh := h2.trans h3
+  refine ⟨hsh, ?_⟩
+  intro q sq s' hq hs'
+  have hPVw : PartialView D w := partialView_of_shape hw (partialView_consistent hD)
+  have hPVd : PartialView D (deleteCopies del w) := partialView_delete hPVw del
+  have hI' := partialView_sync num hPVd q s' hs'
+  have hIq := hPVw q sq hq
+  have hdq : (deleteCopies del w)[q]? = some (deleteRank (del q) sq) := by
+    rw [deleteCopies_getElem?, hq]; rfl
+  obtain ⟨s'', hs'', hmIdx, _, _⟩ := monotone_rank num hPVd q _ hdq
+  rw [hs'] at hs''
+  simp only [Option.some.injEq] at hs''
+  subst hs''
+  have hex := (exact_rank num hPVd q _ s' hdq hs').1
+  have hqc : q < (consistent D).length := hw.1 ▸ (List.getElem?_eq_some_iff.1 hq).1
+  have hc : (consistent D)[q]? = some (consistent D)[q] := List.getElem?_eq_getElem hqc
+  have hkeys : s'.idx.map IdxEntry.key = sq.idx.map IdxEntry.key :=
+    (hsh.2 q s' _ hs' hc).1.trans (hw.2 q sq _ hq hc).1.symm
+  have hdel_idx : ∀ e, e ∈ (deleteRank (del q) sq).idx ↔ e ∈ sq.idx ∧ del q e.g = false := by
+    intro e
+    simp [deleteRank, List.mem_filter]
+  apply pairwise_ext (fun a b : IdxEntry => a.g < b.g) (fun a => Int.lt_irrefl _) (fun a b h => Int.lt_asymm h)
+    _ _ hI'.idxSorted
+  · rw [List.pairwise_map]
+    apply List.Pairwise.imp _ hIq.idxSorted
+    intro a b hab
+    have ea : (if del q a.g = true then { a with loc := num a.g } else a).g = a.g := by split <;> rfl
+    have eb : (if del q b.g = true then { b with loc := num b.g } else b).g = b.g := by split <;> rfl
+    rw [ea, eb]; exact hab
+  · intro e
+    rw [List.mem_map]
+    constructor
+    · intro he
+      rcases hex e he with h | ⟨hloc, _⟩
+      · obtain ⟨h4, h5⟩ := (hdel_idx e).1 h
+        exact ⟨e, h4, by simp [h5]⟩
+      · have : e.key ∈ sq.idx.map IdxEntry.key := by rw [← hkeys]; exact List.mem_map.2 ⟨e, he, rfl⟩
+        obtain ⟨e0, he0, hk0⟩ := List.mem_map.1 this
+        have hg : e0.g = e.g := congrArg Prod.fst hk0
+        have ha : e0.attr = e.attr := congrArg Prod.snd hk0
+        refine ⟨e0, he0, ?_⟩
+        cases hd : del q e0.g
+        · have hm : e0 ∈ s'.idx := hmIdx e0 ((hdel_idx e0).2 ⟨he0, hd⟩)
+          have := eq_of_mem_pairwise_g _ hI'.idxSorted e0 e hm he hg
+          simp [this]
+        · cases e; cases e0
+          simp only at hg ha hloc
+          simp [hg, ha, hloc]
+    · rintro ⟨e0, he0, rfl⟩
+      cases hd : del q e0.g
+      · simp only [Bool.false_eq_true, if_false]
+        exact hmIdx e0 ((hdel_idx e0).2 ⟨he0, hd⟩)
+      · simp only [if_true]
+        have : e0.key ∈ s'.idx.map IdxEntry.key := by rw [hkeys]; exact List.mem_map.2 ⟨e0, he0, rfl⟩
+        obtain ⟨e, he, hk0⟩ := List.mem_map.1 this
+        have hg : e.g = e0.g := congrArg Prod.fst hk0
+        have ha : e.attr = e0.attr := congrArg Prod.snd hk0
+        rcases hex e he with h | ⟨hloc, _⟩
+        · have := ((hdel_idx e).1 h).2
+          rw [hg, hd] at this
+          simp at this
+        · have : e = { e0 with loc := num e0.g } := by
+            cases e; cases e0
+            simp only at hg ha hloc
+            simp [hg, ha, hloc]
+          rw [← this]; exact he
+
+/-- ... and the consistent state itself has that shape, so `restore_after_delete_any` applies to it and then, by its
+own conclusion, to the result of every further delete-and-sync round. -/
+theorem consistent_shape (D : Decomp) : Shape (consistent D) (consistent D) := Shape.refl _
+
+/-- A numberer object without state behaves as the function it computes: the model with the numberer state threaded
+through the receives coincides with `sync` (so the theorems above speak about it). -/
+theorem stateful_numberer_conservative {σ : Type} (num : Int → Nat) (w : World) (q : Nat) (st : RankState) (s : σ) :
+    syncRankS (fun s g => (num g, s)) w q (st, s) = (syncRank num w q st, s) :=
+  syncRankS_pure num w q st s
+
+/-- Any numberer object, whatever its state does: the sync yields the same (global, attribute) pairs and the same
+remote index lists as with a pure numbering (hence post-condition, monotonicity, sortedness, restoration of the shape
+carry over), and counts as in sync.  Only the local numbers of the new pairs depend on the numberer. -/
+theorem stateful_numberer_shape {σ : Type} (nm : σ → Int → Nat × σ) (num : Int → Nat) (w : World) (ss : List σ)
+    (q : Nat) (x : RankState × σ) (sq' : RankState)
+    (hx : (syncS nm w ss)[q]? = some x) (hq : (sync num w)[q]? = some sq') :
+    ShapeEq x.1 sq' ∧ isSynced x.1 = true := by
+  simp only [syncS, List.getElem?_mapIdx, Option.map_eq_some_iff] at hx
+  obtain ⟨⟨a, s⟩, hz, rfl⟩ := hx
+  have ha : w[q]? = some a := by
+    have := List.getElem?_zip_eq_some.1 hz
+    exact this.1
+  rw [sync_getElem?, ha] at hq
+  simp only [Option.map_some, Option.some.injEq] at hq
+  subst hq
+  exact ⟨syncRankS_shape nm num w q a s, syncRankS_seq nm w q (a, s)⟩
+
+/-- The counting numberer (`base, base+1, …`, state = number of calls so far): it is called exactly once per index
+that the sync adds (the call counter grows by the growth of the index set), nothing known before is lost, every new
+pair gets a number from the block handed out during this sync, and no number is given twice. -/
+theorem counting_numberer_spec (base : Nat) (w : World) (q : Nat) (st : RankState) (c : Nat) :
+    c ≤ (syncRankS (countingNumberer base) w q (st, c)).2 ∧
+    (syncRankS (countingNumberer base) w q (st, c)).1.idx.length =
+      st.idx.length + ((syncRankS (countingNumberer base) w q (st, c)).2 - c) ∧
+    (∀ e ∈ st.idx, e ∈ (syncRankS (countingNumberer base) w q (st, c)).1.idx) ∧
+    (∀ e ∈ (syncRankS (countingNumberer base) w q (st, c)).1.idx, e ∈ st.idx ∨
+      (base + c ≤ e.loc ∧ e.loc < base + (syncRankS (countingNumberer base) w q (st, c)).2)) ∧
+    (∀ e₁ ∈ (syncRankS (countingNumberer base) w q (st, c)).1.idx,
+      ∀ e₂ ∈ (syncRankS (countingNumberer base) w q (st, c)).1.idx,
+        e₁ ∉ st.idx → e₂ ∉ st.idx → e₁.loc = e₂.loc → e₁ = e₂) := by
+  have h := CountInv.recvAllS (base := base) q (st, c) (CountInv.init base st.idx c) (inbox w q)
+  exact ⟨h.le, h.len, h.old, h.locs, h.distinct⟩
+
 /-! ### non-vacuity: the hypotheses are satisfiable by a concrete non-trivial input
 
 Three ranks; index 3 owned by rank 0 with an overlap/copy on ranks 2/1, index 4 a copy everywhere, 6 owned by rank 1
@@ -246,5 +431,75 @@ example : ∃ s', (sync exNum exW)[2]? = some s' ∧
 /-- the deletion really removed something on rank 2 (so the restoration is not trivial) -/
 example : ∃ s2, exW[2]? = some s2 ∧ s2.idx.map (fun e => (e.g, e.attr)) = [(6, 1)] ∧
     s2.remote = [(0, []), (1, [⟨6, 1, 0⟩])] := ⟨_, rfl, by decide⟩
+
+/-! ### non-vacuity of the round-two theorems -/
+
+/-- hypotheses of `receives_commute`: rank 2's state and two true items from different sources -/
+def exS2 : RankState := exW[2]?.getD ⟨[], [], 0, 0⟩
+example : receiveItem exNum 2 1 (receiveItem exNum 2 0 exS2 ⟨3, 0, [(1, 2), (2, 1)]⟩) ⟨4, 2, [(0, 2), (2, 2)]⟩ =
+    receiveItem exNum 2 0 (receiveItem exNum 2 1 exS2 ⟨4, 2, [(0, 2), (2, 2)]⟩) ⟨3, 0, [(1, 2), (2, 1)]⟩ :=
+  receives_commute exNum exD 3 2 exS2 (partialView_of_deleted exD exWF exDel 2 exS2 rfl)
+    (0, ⟨3, 0, [(1, 2), (2, 1)]⟩) (1, ⟨4, 2, [(0, 2), (2, 2)]⟩)
+    ⟨rfl, by decide, by decide, by decide⟩ ⟨rfl, by decide, by decide, by decide⟩
+
+/-- a grown decomposition: index 9, owned by rank 0, with copies on ranks 1 and 2 that do not exist yet -/
+def exD' : Decomp := List.zipWith (· ++ ·) exD [[(9, 0)], [(9, 2)], [(9, 1)]]
+theorem exLe : DecompLe exD exD' := decompLe_zipWith_append exD _ (by decide)
+
+/-- rank 0 adds index 9 and announces it to its neighbours 1 and 2 -/
+def exW' : World := addCopyAt exW 0 9 0 509 [(1, 2), (2, 1)]
+
+theorem exNew0 : ∀ st, exW[0]? = some st → ∀ e ∈ st.idx, e.g ≠ 9 := by
+  have h : ∀ e ∈ ((exW[0]?).map (·.idx)).getD [], e.g ≠ 9 := by decide
+  intro st hst e he
+  exact h e (by rw [hst]; exact he)
+
+/-- hypotheses of `partialView_of_added` (and of `partialView_of_grown`) -/
+theorem exPV' : PartialView exD' exW' :=
+  partialView_of_added exD' exW (partialView_of_grown exD exD' exW (partialView_of_deleted exD exWF exDel) exLe)
+    0 9 0 509 _ rfl exNew0 (known_of_forall exD' 9 _ (by decide))
+
+/-- ... the announced copies are really new, and the sync creates them on ranks 1 and 2, which list each other for 9 -/
+example : ∃ s1, exW'[1]? = some s1 ∧ hasKey s1.idx 9 2 = false := ⟨_, rfl, by decide⟩
+example : ∃ s1, (sync exNum exW')[1]? = some s1 ∧ hasKey s1.idx 9 2 = true ∧
+    (⟨9, 2, 0⟩ : RemEntry) ∈ listOf s1.remote 0 ∧ (⟨9, 2, 1⟩ : RemEntry) ∈ listOf s1.remote 2 := by
+  obtain ⟨s1, h1, h2, h3, h4⟩ := sync_postcondition exNum exD' exW' exPV' 0 1 _ rfl ⟨9, 0, 2⟩ (by decide)
+  exact ⟨s1, h1, h2, h3, h4 2 ⟨9, 0, 1⟩ (by decide) (by decide) rfl⟩
+
+/-- hypotheses of `history_invariant`: delete, announce, sync in reversed processing order, delete again, sync -/
+def exSteps : List Step :=
+  [.delete exDel, .add 0 9 0 509 [(1, 2), (2, 1)], .syncOrd (fun _ l => l.reverse) exNum, .delete exDel, .sync exNum]
+
+example : PartialView exD' (runSteps exSteps (consistent exD)) ∧ NbSym (runSteps exSteps (consistent exD)) :=
+  history_invariant exD' exSteps (consistent exD)
+    (partialView_of_grown exD exD' _ (partialView_consistent exWF) exLe) (nbSym_consistent exWF)
+    ⟨trivial, ⟨rfl, exNew0, known_of_forall exD' 9 _ (by decide)⟩, fun _ => List.reverse_perm _, trivial, trivial, trivial⟩
+
+/-- hypotheses of `restore_after_delete_any`, second round: the state after one delete-and-sync round (restored pairs
+carry the numbers 1003, 1004) is deleted from again and synced with another numbering -/
+theorem exRound1 : Shape (sync exNum exW) (consistent exD) :=
+  (restore_after_delete_any exNum exD exWF (consistent exD) (consistent_shape exD) exDel exListed).1
+
+example : ∃ s2, (sync exNum exW)[2]? = some s2 ∧ s2.idx = [⟨3, 1, 1003⟩, ⟨4, 2, 1004⟩, ⟨6, 1, 2⟩] := ⟨_, rfl, by decide⟩
+
+theorem exListed2 : ∀ p g, exDel p g = true → (exD.attrOf p g).isSome = true →
+    ∃ (r : Nat) (sr : RankState) (en : RemEntry),
+      (deleteCopies exDel (sync exNum exW))[r]? = some sr ∧ en ∈ listOf sr.remote p ∧ en.g = g := by
+  intro p g h _
+  simp only [exDel, Bool.or_eq_true, Bool.and_eq_true, beq_iff_eq] at h
+  rcases h with ⟨rfl, rfl⟩ | ⟨rfl, rfl | rfl⟩
+  · exact ⟨0, _, ⟨3, 0, 2⟩, rfl, by decide, rfl⟩
+  · exact ⟨0, _, ⟨3, 0, 1⟩, rfl, by decide, rfl⟩
+  · exact ⟨0, _, ⟨4, 2, 2⟩, rfl, by decide, rfl⟩
+
+example : ∃ s2, (sync (fun g => (2000 + g).toNat) (deleteCopies exDel (sync exNum exW)))[2]? = some s2 ∧
+    s2.idx = [⟨3, 1, 2003⟩, ⟨4, 2, 2004⟩, ⟨6, 1, 2⟩] := by
+  have h := (restore_after_delete_any (fun g => (2000 + g).toNat) exD exWF (sync exNum exW) exRound1 exDel exListed2).2
+    2 _ _ rfl rfl
+  exact ⟨_, rfl, h.trans (by decide)⟩
+
+/-- the counting numberer on the example: rank 2 restores two indices with the numbers 2000 and 2001, two calls -/
+example : ((syncS (countingNumberer 2000) exW [0, 0, 0])[2]?).map (fun x => (x.1.idx, x.2)) =
+    some ([⟨3, 1, 2000⟩, ⟨4, 2, 2001⟩, ⟨6, 1, 2⟩], 2) := by decide
 
 end DV.C13
